@@ -3,6 +3,7 @@ package schedh
 
 import (
 	"fmt"
+	"os"
 	"runtime"
 	"runtime/debug"
 	"strings"
@@ -54,7 +55,7 @@ func Run(c *mc.Ctx, o Opts, body func()) *shim.Sched {
 		s.MaxAdvances = o.MaxAdvances
 	}
 	s.NoAdvanceAlt = o.NoAdvanceAlt
-	s.KeepTrace = c.Replay
+	s.KeepTrace = c.Replay || os.Getenv("MC_TRACE") != ""
 	rand.Reset()
 	if o.SelectRotation {
 		shim.SelectRotation = func(n int) int { return c.Deviate(n) }
@@ -63,6 +64,9 @@ func Run(c *mc.Ctx, o Opts, body func()) *shim.Sched {
 	}
 	s.Run(body)
 	shim.SelectRotation = nil
+	if os.Getenv("MC_TRACE") != "" {
+		fmt.Fprintf(os.Stderr, "TRACE %s\n", strings.Join(s.Trace, " "))
+	}
 	if c.Replay && len(s.Trace) > 0 {
 		c.Op("    schedule: %s", strings.Join(s.Trace, " "))
 	}
